@@ -998,10 +998,10 @@ def run_binding(ctx, quick, rng):
         for idx, e in enumerate(g.edges):
             path = paths[e["_f"]] + [e]
             for j, conc in enumerate(concs):
-                if quick:
+                if quick or j > 0:
                     todo = [modes[(idx + j) % 2]]
                 else:
-                    todo = modes
+                    todo = modes          # thorough: the canonical concretization in both modes
                 for mode in todo:
                     n_replayed += 1
                     if replay_path(path, conc, mode, "transition"):
